@@ -190,7 +190,9 @@ MCInspect == /\ phase \in {"stored", "failed"}
              /\ (pre = shard \/ (last.res # "none" /\ shard = AllOk))   \* not on top of an adopted observation
              /\ \E intact \in NearObservations :
                    \* observations that differ from the model: after the write, and after reads that may rewrite files
-                   /\ (Observed(intact) \/ (rounds = 0 /\ last = NoRead) \/ (repair /\ last.res # "none"))
+                   /\ \/ Observed(intact)
+                      \/ rounds = 0 /\ last = NoRead
+                      \/ repair /\ last.res # "none" /\ last.nd <= p + 1
                    /\ (Inspect(intact) \/ InspectUnspecified(intact) \/ InspectDeviates(intact))
 
 Next == MCWrite \/ MCDamage \/ MCDamageAfterRepair \/ MCRead \/ MCInspect
